@@ -13,7 +13,8 @@ ASSUMPTIONS = [
     "(c) uniformity: Encoder_F(UT, default_dialect=D) vs BasicEncoder(UT, default_dialect=D) for symbolic values, transports replaced by "
     "identity (public post_encoder_func/pre_decoder_func parameters; for orjson and toml, which have none, a shim object bound in "
     "mashumaro.codecs.<fmt> while the codec is constructed); documents compared modulo the format's declared native types "
-    "(date/UUID/bytes rendered as in the basic form) and TOML's omission of nulls",
+    "(date/UUID/bytes rendered as in the basic form) and TOML's omission of nulls; 'unishared' harnesses construct the codecs of "
+    "all other formats with the same user dialect first, in the same process",
 ]
 FORMATS = ["json", "yaml", "orjson", "msgpack", "toml"]
 
@@ -30,6 +31,10 @@ def harnesses(tier, seed):
         for dname in P.UNI_DIALECTS:
             kw = "fmt=%r, dname=%r" % (fmt, dname)
             hs.append(gen.custom_harness("C13", "c13", Schema("uni_%s_%s" % (fmt, dname), "int", ""), "uni", "", kw))
+    for fmt in ("orjson", "msgpack", "toml"):
+        for dname in (("omit_default", "by_alias", "strategy") if tier == "quick" else [d for d in P.UNI_DIALECTS if d != "none"]):
+            kw = "fmt=%r, dname=%r, shared=True" % (fmt, dname)
+            hs.append(gen.custom_harness("C13", "c13", Schema("unishared_%s_%s" % (fmt, dname), "int", ""), "uni", "", kw))
     return hs
 
 
